@@ -55,7 +55,10 @@ def main(argv):
             for owner in owners:
                 env = dict(os.environ)
                 env['VERIF_REPO'] = copy
-                p = subprocess.run([os.path.join(VERIF, 'check'), owner, '--tier', tier, '--no-evidence', '--shrink-budget', '5'],
+                cmd = [os.path.join(VERIF, 'check'), owner, '--tier', tier, '--no-evidence', '--shrink-budget', '5']
+                if not expect_silent:
+                    cmd.append('--first')      # same budget, but stop as soon as one witness is found
+                p = subprocess.run(cmd,
                                    env=env, stdout=subprocess.PIPE, stderr=subprocess.DEVNULL)
                 out = p.stdout.decode('utf-8', 'replace')
                 viol = [l for l in out.splitlines() if l.startswith('VIOLATION')]
